@@ -28,6 +28,8 @@ def rounded(vs, cubic=False):
 
 
 def run(ctx):
+    from harness import fidelity
+    fidelity.check(ctx, ['open', 'closed'])
     from shapepy import IntegrateShape, JordanCurve, SimpleShape, ConnectedShape
     from shapepy.jordancurve import IntegrateJordan
     rng, drv = ctx.rng, ctx.drv
